@@ -9,7 +9,7 @@ import contextlib
 import numpy as np
 from hypothesis import strategies as st
 
-from .. import build
+from .. import build, gen
 from ..runner import Result
 from ..ref import report
 
@@ -29,6 +29,7 @@ BUDGET = {'quick': {'examples': 12000, 'wall': 220}, 'thorough': {'examples': 20
 ASSUMPTIONS = ['unbounded resource use (e.g. 1e9 segments) is out of scope: counts are bounded by the generator',
                'exceptions are bucketed by (type, innermost function of the package)']
 LABEL_FLOORS = {'outcome-report': 0.2, 'outcome-diagnostic': 0.2, 'hostile': 0.4}
+FLOOR_EXCLUDE_LABEL = 'fuzz-campaign'       # floors are fractions of the generated part
 
 HOSTILE_NUM = ['0', '-1', '1e-300', '1e300', 'nan', 'inf', '-inf', '', 'x', '-0', '1e-40', '3.5', '1e6', '1e308', '-1e308', '1e150']
 HOSTILE_CPLX = ['0', '0j', 'nan', 'nanj', 'inf', 'inf+1j', '1e300', '1e308+1e308j', '-1', '1e-300j', 'x', '', '1+', '(1+1j)']
@@ -68,7 +69,7 @@ def argv_strategy(draw, big=False):
     p = np.array([0.0, 0.0, 0.0 if on_ground else round(draw(st.floats(0.2, 1.0)) * lam, 3)])
     dirs = [(0, 0, 1), (1, 0, 0), (0, 1, 0), (1, 1, 1), (0, 0, 1), (-1, 0, 1)]
     tagged = draw(st.booleans())
-    pool = draw(st.permutations([1, 2, 3, 4, 5, 7, 9, 12]))
+    pool = draw(gen.shuffled([1, 2, 3, 4, 5, 7, 9, 12]))
     objs = []         # (type order, explicit tag or None, pulse count, is wire)
     nobj = 0
     npulse = 0
@@ -282,7 +283,7 @@ def argv_strategy(draw, big=False):
             else:
                 o[1].append(['1', 'i'])
             arity = 1
-    order = draw(st.permutations(list(range(len(opts))))) if draw(st.integers(0, 3)) == 0 else list(range(len(opts)))
+    order = draw(gen.shuffled(list(range(len(opts))))) if draw(st.integers(0, 3)) == 0 else list(range(len(opts)))
     argv = []
     for i in order:
         name, flds = opts[i]
@@ -396,3 +397,81 @@ def check(case):
             fails.append(('diagnostic-lines:%d' % min(len(lines), 3), 'return value 23 with %d non-empty lines: %r' % (len(lines), lines[:3])))
         return Result(fails=fails, nontrivial=nt, labels=labels)
     return Result(fails=[('return-value', 'main returned %r' % (r,))], nontrivial=nt, labels=labels)
+
+
+def enumerate_part(tier, seed, nproc, deadline):
+    """thorough tier only: coverage-guided campaign (atheris / libFuzzer over the instrumented package) on the same
+    grammar, one process per core, at most 40 % of the remaining wall clock.  See pv/fuzz_c20.py."""
+    import sys
+    import json
+    import time
+    import random
+    import subprocess
+    import collections
+    st_ = {'evaluations': 0, 'nt': [], 'labels': {}, 'skipped': {}, 'samples': [], 'truncated': False,
+           'error': None, 'fails': {}}
+    if tier != 'thorough' or os.environ.get('PV_NO_FUZZ') == '1':
+        return st_, None
+    try:
+        import atheris  # noqa: F401
+    except Exception as e:                       # tool not installed: say so in the evidence, do not fail
+        return st_, {'fuzz_campaign': 'skipped: atheris not importable (%s)' % e}
+    secs = max(20.0, 0.4 * (deadline - time.time()))
+    root = tempfile.mkdtemp(prefix='pv-c20-fuzz-')
+    procs = []
+    rnd = random.Random(seed)                    # corpus seeding only; part of the campaign's pinned configuration
+    try:
+        for i in range(nproc):
+            corpus = os.path.join(root, 'corpus%d' % i)
+            os.makedirs(corpus)
+            for k in range(8):
+                with open(os.path.join(corpus, 'seed%d' % k), 'wb') as f:
+                    f.write(bytes(rnd.randrange(256) for _ in range(1500)))
+            out = os.path.join(root, 'out%d.jsonl' % i)
+            cmd = [sys.executable, '-m', 'pv.fuzz_c20', '--seed', str(seed * 1000 + i + 1), '--runs', '100000000',
+                   '--seconds', '%.0f' % secs, '--out', out, '--corpus', corpus]
+            procs.append((subprocess.Popen(cmd, stdout=subprocess.DEVNULL, stderr=subprocess.DEVNULL,
+                                           cwd=os.path.dirname(os.path.dirname(os.path.dirname(os.path.abspath(__file__))))), out))
+        lab = collections.Counter()
+        crashed = 0
+        for pr, out in procs:
+            try:
+                rc = pr.wait(timeout=secs + 180)
+            except subprocess.TimeoutExpired:
+                pr.kill()
+                rc = -9
+            last = None
+            if os.path.exists(out):
+                for line in open(out):
+                    try:
+                        d = json.loads(line)
+                    except ValueError:
+                        continue
+                    if 'fail' in d:
+                        sig = d['fail']
+                        size = len(json.dumps(d['case']))
+                        cur = st_['fails'].get(sig)
+                        if cur is None or size < cur['size']:
+                            st_['fails'][sig] = {'size': size, 'case': d['case'], 'detail': d['detail'], 'count': cur['count'] if cur else 0}
+                    else:
+                        last = d
+            if last is None or not last.get('done'):
+                # the process died (a crash of the interpreter or a libFuzzer timeout is a finding of its own kind,
+                # but cannot be attributed to an input here): reported in the evidence
+                crashed += 1
+            if last:
+                st_['evaluations'] += last['n']
+                st_['nt'] += last.get('nt_hashes', [])
+                for l, c in last['labels'].items():
+                    lab['fuzz:' + l] += c
+                lab['fuzz-campaign'] += last['n']
+                for sig, c in last['counts'].items():
+                    if sig in st_['fails']:
+                        st_['fails'][sig]['count'] += c
+        st_['labels'] = dict(lab)
+        info = {'fuzz_campaign': 'atheris %d processes x %.0f s, libFuzzer seeds %d..%d, corpus seeded with 8 x 1500 random bytes '
+                                 'per process' % (nproc, secs, seed * 1000 + 1, seed * 1000 + nproc),
+                'fuzz_evaluations': st_['evaluations'], 'fuzz_processes_without_final_record': crashed}
+        return st_, info
+    finally:
+        shutil.rmtree(root, ignore_errors=True)
